@@ -181,7 +181,7 @@ theorem applyPair_ok {st : St} {a p : Nat} {g1 g2 : Glyph} {adj : PairAdj} {st' 
     injection h with h; injection h with h; injection h with h1' h2'; subst h1'
     exact stepOK_set2 h1 (applyValue_ok hg1) h2 (applyValue_ok hg2) _
 
-theorem applyMark_ok {add : Bool} {st : St} {a : Nat} {markCov baseCov : Cov} {marks : List MarkRec}
+theorem applyMark_ok {add : Nat → Bool} {st : St} {a : Nat} {markCov baseCov : Cov} {marks : List MarkRec}
     {bases : List (List Anchor)} {st' : St} {n : Nat}
     (h : applyMark add st a markCov baseCov marks bases = .ok (some (st', n))) (G : Nat) : StepOK G st st' := by
   unfold applyMark at h
@@ -193,13 +193,15 @@ theorem applyMark_ok {add : Bool} {st : St} {a : Nat} {markCov baseCov : Cov} {m
     · cases h
     · split at h
       · cases h
-      · obtain ⟨row, hrow, h⟩ := bind_ok h
-        split at h
+      · split at h
         · cases h
-        · split at h
+        · obtain ⟨row, hrow, h⟩ := bind_ok h
+          split at h
           · cases h
-          · injection h with h; injection h with h; injection h with h1 h2; subst h1
-            exact stepOK_set (idx_ok hg) (by rfl) _
+          · split at h
+            · cases h
+            · injection h with h; injection h with h; injection h with h1 h2; subst h1
+              exact stepOK_set (idx_ok hg) (by rfl) _
 
 theorem applySub_ok (kp : Nat → Bool) (st : St) (a : Nat) (b : Int) (s : Subtable) (st' : St) (n : Nat)
     (h : applySub kp st a b s = .ok (some (st', n))) : StepOK s.growth st st' := by
@@ -411,7 +413,7 @@ theorem applySub_ok (kp : Nat → Bool) (st : St) (a : Nat) (b : Int) (s : Subta
       obtain ⟨ad, had, h⟩ := bind_ok h
       injection h with h; injection h with h; injection h with h1 h2; subst h1
       exact stepOK_set (idx_ok hg) (by rfl) _
-  | gpos41 markCov baseCov marks bases =>
+  | gpos41 markCov baseCov marks bases gclass =>
     simp only [applySub] at h
     exact applyMark_ok h _
   | gpos61 markCov baseCov marks bases =>
